@@ -19,7 +19,7 @@ ID = 'C12'
 
 MANIFEST = dict(
     technique='explicit-state enumeration of ordered region lists over a box / polygon lattice x sorter parameters on the real SmartRegionSorter and NaiveRegionSorter under recursion and time limits; permutation/identity oracle',
-    text='Bounded exhaustive: every ordered list of 0-2 boxes over the 36-box lattice (incl. degenerate and identical boxes), every list of 3 boxes over a 16-box sub-lattice (quick) / all 36 (thorough), every list of 4 boxes over 6 (quick) / 4-5 boxes over 9 (thorough) mutually overlapping boxes, every list of 1-3 polygons over a 6-polygon alphabet, each with de-skew 0 / +-3 degrees, for the smart sorter with 3 intersection parameters and the naive sorter with 3 width denominators (about 5e4 sorter calls quick, 7e5 thorough). Each call must terminate (recursion limit 400, 5 s alarm), not raise, and return exactly the input region objects, each once, with lines, ids, text and (up to de-skew round-off) geometry unchanged. Added sub-sweeps: 0-3 lines per region in four patterns, single-channel page images, int32 coordinates, line ids that are not unique on the page or absent, layouts of 12-16 regions, and a long-lived sorter per configuration compared with a fresh one.',
+    text='Bounded exhaustive: every ordered list of 0-2 boxes over the 36-box lattice (incl. degenerate and identical boxes), every list of 3 boxes over a 16-box sub-lattice (quick) / all 36 (thorough), every list of 4 boxes over 6 (quick) / 4-5 boxes over 9 (thorough) mutually overlapping boxes, every list of 1-3 polygons over a 6-polygon alphabet, each with de-skew 0 / +-3 degrees, for the smart sorter with 3 intersection parameters and the naive sorter with 3 width denominators (about 5e4 sorter calls quick, 7e5 thorough). Each call must terminate (recursion limit 400, 5 s alarm), not raise, and return exactly the input region objects, each once, with lines, ids, text and (up to de-skew round-off) geometry unchanged. Added sub-sweeps: 0-3 lines per region in four patterns, single-channel page images, int32 coordinates, line ids that are not unique on the page or absent, layouts of 12-16 regions, and a long-lived sorter per configuration compared with a fresh one. A 40-level nested spiral of regions.',
     note='Lists longer than 5 regions are not explored; ImageWidthDenominator values that make the cluster radius 0 are a configuration error and excluded.',
     ref='3/C12')
 
